@@ -1,7 +1,9 @@
-(* ProofsTerm.v — C08: evaluation of plain references terminates.  For every tree whose dynamic
-   values are plain references (no splices; any shape, any depth, references may be cyclic,
-   dangling, point into lists or at other references), read with no Env configs and no
-   resolvers, the evaluator model with fuel above the number of references in the tree never
+(* ProofsTerm.v — C08: evaluation of plain references terminates.  The tree that is read and every
+   Env config consist of plain references (no splices; any shape, any depth, references may be
+   cyclic, dangling, point into lists, at containers or at other references); there are no
+   resolvers.  A reference is looked up from the root of the tree it stands in, then in the Env
+   configs, most recent first; what it finds may again be a reference, standing in another tree.
+   With fuel above the number of references of all the trees together the evaluator model never
    runs out of fuel: every read is decided - a value or an error.  With ProofsFuel this outcome
    is the outcome at every larger fuel. *)
 From Ucfg Require Import Base ParseInt Consts Field Tree PathOps Merge OTree F64 ParseValue VarParse Normalize Flags VarEval ProofsVarEval.
@@ -89,17 +91,25 @@ Proof. intros n H. apply act_has_mark_true. exact H. Qed.
 
 Section Term.
   Variable o : eopts.
-  Hypothesis Henv : eo_envs o = [].
   Hypothesis Hres : eo_res o = [].
-  Variable root : value.
-  Variable S0 : list string.        (* the names of the references of the tree *)
+  Variable own : value.             (* the tree that is read *)
+  Variable S0 : list string.        (* the names of the references of all the trees *)
 
-  Definition good (v : value) : Prop := sub v root.
+  Definition all : list value := own :: eo_envs o.
+  Definition good (v : value) : Prop := exists rt, In rt all /\ sub v rt.
   Hypothesis Href : forall p sep, good (VRef p sep) -> In (path_str p sep) S0.
   Hypothesis Hspl : forall e, ~ good (VSplice e).
   Hypothesis Hflt : forall f, good (VFloat f) -> ftext_lookup (eo_ftext o) f <> None.
 
-  Definition lgood (v : loc) : Prop := l_root v = root /\ good (l_val v).
+  (* a located value: it stands in one of the trees, and its root is that tree *)
+  Definition lgood (v : loc) : Prop := In (l_root v) all /\ sub (l_val v) (l_root v).
+  Lemma lgood_good v : lgood v -> good (l_val v).
+  Proof. intros [I S]. exists (l_root v). split; assumption. Qed.
+
+  Lemma in_all_rev rt root : In root all -> In rt (root :: rev (eo_envs o)) -> In rt all.
+  Proof.
+    intros Hr [E|I]; [subst rt; exact Hr|]. right. apply in_rev. exact I.
+  Qed.
 
   (* how many reference names are not being evaluated *)
   Definition free_in (a : act) (l : list string) : nat := List.length (filter (fun n => negb (act_has n a)) l).
@@ -147,8 +157,8 @@ Section Term.
 
   (** what a recursive evaluator good for chains with fewer than K free names provides *)
   Definition dv_ok (K : nat) (dv : value -> act -> string -> value -> R loc) : Prop :=
-    forall a dp d, good d -> m a < K ->
-      match dv root a dp d with
+    forall rt a dp d, In rt all -> sub d rt -> m a < K ->
+      match dv rt a dp d with
       | Ok (v, a') => lgood v /\ le_act a a' /\ (is_dyn d = true -> m a' < m a)
       | OutOfModel => False
       | _ => True
@@ -162,24 +172,28 @@ Section Term.
 
     Lemma to_cfg_dyn_ok : forall n a v, lgood v -> m a < n -> m a < K ->
       match to_cfg_dyn dv n a v with
-      | Ok (c, a') => le_act a a' /\ (forall cv, c = Some cv -> is_sub cv = true /\ (cv = empty_cfg \/ good cv))
+      | Ok (c, a') => le_act a a' /\
+                      (forall cl, c = Some cl -> is_sub (l_val cl) = true /\ In (l_root cl) all /\
+                                                 (l_val cl = empty_cfg \/ sub (l_val cl) (l_root cl)))
       | OutOfModel => False
       | _ => True
       end.
     Proof.
       induction n as [|n IH]; intros a v [Hr Hg] Hn Hk; [lia|]. cbn [to_cfg_dyn].
       destruct (l_val v) as [ | | | | | |p sep|e|d0 a0] eqn:Ev;
-        try (split; [apply le_act_refl|intros cv X; discriminate X]).
-      - split; [apply le_act_refl|]. intros cv X. injection X as X. subst cv. split; [reflexivity|left; reflexivity].
-      - pose proof (Hdv a (l_path v) (VRef p sep) Hg Hk) as D. rewrite Hr.
-        destruct (dv root a (l_path v) (VRef p sep)) as [[v1 a1]|e1 pe| |]; [|..|exact I|contradiction].
+        try (split; [apply le_act_refl|intros cl X; discriminate X]).
+      - split; [apply le_act_refl|]. intros cl X. injection X as X. subst cl. cbn [l_val l_root].
+        split; [reflexivity|]. split; [exact Hr|left; reflexivity].
+      - pose proof (Hdv (l_root v) a (l_path v) (VRef p sep) Hr Hg Hk) as D.
+        destruct (dv (l_root v) a (l_path v) (VRef p sep)) as [[v1 a1]|e1 pe| |]; [|..|exact I|contradiction].
         + destruct D as [G1 [L1 M1]]. specialize (M1 eq_refl).
           specialize (IH a1 v1 G1 ltac:(lia) ltac:(lia)).
           destruct (to_cfg_dyn dv n a1 v1) as [[c a2]|e2 pe2| |]; try exact I; [|contradiction].
           destruct IH as [L2 C]. split; [exact (le_act_trans _ _ _ L1 L2)|exact C].
-        + split; [destruct (err_marked pe); [apply le_act_mark|apply le_act_refl]|intros cv X; discriminate X].
-      - exfalso. exact (Hspl e Hg).
-      - split; [apply le_act_refl|]. intros cv X. injection X as X. subst cv. split; [reflexivity|right; exact Hg].
+        + split; [destruct (err_marked pe); [apply le_act_mark|apply le_act_refl]|intros cl X; discriminate X].
+      - exfalso. apply (Hspl e). exists (l_root v). split; assumption.
+      - split; [apply le_act_refl|]. intros cl X. injection X as X. subst cl. rewrite Ev.
+        split; [reflexivity|]. split; [exact Hr|right; exact Hg].
     Qed.
 
     (* postcondition shared by the field and path readers *)
@@ -195,16 +209,20 @@ Section Term.
     Proof.
       intros G Hn Hk. unfold get_field_dyn.
       pose proof (to_cfg_dyn_ok fuel0 a elem G Hn Hk) as T.
-      destruct (to_cfg_dyn dv fuel0 a elem) as [[c a1]|e pe| |]; cbn [bind]; [|exact I|exact I|contradiction].
-      destruct T as [L C]. destruct c as [cv|].
-      - destruct (C cv eq_refl) as [Hs Hc].
-        destruct (get_field_decided fl (l_path elem) cv Hs) as [NO NP].
-        pose proof (get_field_child fl (l_path elem) cv) as CH.
-        destruct (get_field fl (l_path elem) cv) as [[[pp x]|]|e pe| |]; try contradiction; cbn [read_post].
+      destruct (to_cfg_dyn dv fuel0 a elem) as [[c a0]|e pe| |]; cbn [bind]; [|exact I|exact I|contradiction].
+      destruct T as [_ C]. cbv zeta.
+      assert (le_act a (if act_marked a0 then act_mark a else a)) as L
+          by (destruct (act_marked a0); [apply le_act_mark|apply le_act_refl]).
+      set (a1 := if act_marked a0 then act_mark a else a) in *.
+      destruct c as [cl|].
+      - destruct (C cl eq_refl) as [Hs [Hin Hc]].
+        destruct (get_field_decided fl (l_path cl) (l_val cl) Hs) as [NO NP].
+        pose proof (get_field_child fl (l_path cl) (l_val cl)) as CH.
+        destruct (get_field fl (l_path cl) (l_val cl)) as [[[pp x]|]|e pe| |]; try contradiction; cbn [read_post].
         + split; [exact L|]. split; [discriminate|]. intros l X. injection X as X. subst l.
-          split; [destruct G as [G _]; exact G|]. cbn [l_val].
+          split; [exact Hin|]. cbn [l_val l_root].
           specialize (CH pp x Hs eq_refl). destruct Hc as [Hc|Hc].
-          * subst cv. inversion CH; subst; contradiction.
+          * rewrite Hc in CH. inversion CH; subst; contradiction.
           * exact (sub_step _ _ _ CH Hc).
         + split; [exact L|]. split; [discriminate|]. intros l X. discriminate X.
         + split; [exact L|]. split; [discriminate|]. intros l X. discriminate X.
@@ -245,30 +263,64 @@ Section Term.
           * contradiction.
     Qed.
 
+    (* the search through the roots: the own tree, then the Env configs *)
+    Definition last_ok (r : rres) : Prop :=
+      match r with RNone | RMissing | RCritical _ _ => True | _ => False end.
+    Definition found_post (a : act) (x : rres * act) : Prop :=
+      le_act a (snd x) /\ (forall r0, fst x = RStop r0 -> r0 = Panic) /\ (fst x <> RCyclic) /\ (forall v, fst x = RFound v -> lgood v).
+
+    Lemma try_roots_ok p : forall roots a last,
+      (forall rt, In rt roots -> In rt all) -> last_ok last -> m a < fuel0 -> m a < K ->
+      found_post a (try_roots dv fuel0 p roots a last).
+    Proof.
+      induction roots as [|rt more IH]; intros a last Hin Hl Hn Hk.
+      - cbn [try_roots]. split; [apply le_act_refl|]. cbn [fst snd].
+        destruct last; try contradiction; (split; [intros r0 X; discriminate X|]; split; [discriminate|]; intros v X; discriminate X).
+      - cbn [try_roots].
+        assert (lgood {| l_root := rt; l_path := ""; l_val := rt |}) as GR
+            by (split; [apply Hin; left; reflexivity|apply sub_refl]).
+        pose proof (get_path_dyn_ok p a _ GR Hn Hk) as P.
+        assert (forall x, In x more -> In x all) as Hin' by (intros x Hx; apply Hin; right; exact Hx).
+        destruct (get_path_dyn dv fuel0 p a {| l_root := rt; l_path := ""; l_val := rt |}) as [[r a1]|e pe| |];
+          [| |split; [apply le_act_refl|]; cbn [fst snd]; split; [intros r0 X; injection X as X; subst r0; reflexivity|]; split; [discriminate|]; intros v X; discriminate X|contradiction].
+        + cbn [read_post] in P. destruct P as [L [NO GL]]. pose proof (m_le _ _ L) as ML.
+          assert (forall lst, last_ok lst -> found_post a (try_roots dv fuel0 p more a1 lst)) as Next.
+          { intros lst Hlst. destruct (IH a1 lst Hin' Hlst ltac:(lia) ltac:(lia)) as [L2 R2].
+            split; [exact (le_act_trans _ _ _ L L2)|exact R2]. }
+          destruct r as [[v|]|e pe| |].
+          * split; [exact L|]. cbn [fst snd]. split; [intros r0 X; discriminate X|]. split; [discriminate|].
+            intros v0 X. injection X as X. subst v0. exact (GL v eq_refl).
+          * apply Next. exact I.
+          * destruct e; apply Next; exact I.
+          * split; [exact L|]. cbn [fst snd]. split; [intros r0 X; injection X as X; subst r0; reflexivity|]. split; [discriminate|]. intros v X; discriminate X.
+          * contradiction.
+        + split; [apply le_act_refl|]. cbn [fst snd]. split; [intros r0 X; discriminate X|]. split; [discriminate|]. intros v X; discriminate X.
+    Qed.
+
     (* one unfolding of cfgDynamic.getValue handles one more free name *)
     Lemma dyn_step_ok : dv_ok (S K) (dyn_step o dv fuel0).
     Proof.
-      intros a dp d G Hk.
+      intros rt a dp d Hrt G Hk.
       destruct d as [ | | | | | |p sep|e|d0 a0];
-        try (cbn [dyn_step is_dyn]; split; [split; [reflexivity|exact G]|]; split; [apply le_act_refl|discriminate]).
-      - pose proof (Href p sep G) as IN. unfold dyn_step, resolve_ref. rewrite Henv. cbn [rev app].
+        try (cbn [dyn_step is_dyn]; split; [split; [exact Hrt|exact G]|]; split; [apply le_act_refl|discriminate]).
+      - assert (In (path_str p sep) S0) as IN by (apply Href; exists rt; split; assumption).
+        unfold dyn_step, resolve_ref.
         destruct (act_has (path_str p sep) a) eqn:EA.
         + rewrite no_resolver. unfold mkerr. exact I.
-        + cbn [try_roots].
-          pose proof (m_add _ _ IN EA) as MA.
-          assert (lgood {| l_root := root; l_path := ""; l_val := root |}) as GR by (split; [reflexivity|apply sub_refl]).
-          pose proof (get_path_dyn_ok p (act_add (path_str p sep) a) _ GR ltac:(lia) ltac:(lia)) as P.
-          destruct (get_path_dyn dv fuel0 p (act_add (path_str p sep) a) {| l_root := root; l_path := ""; l_val := root |})
-            as [[r a1]|e pe| |]; [|unfold mkerr; exact I|exact I|contradiction].
-          cbn [read_post] in P. destruct P as [L [NO GL]].
-          destruct r as [[v|]|e pe| |].
+        + pose proof (m_add _ _ IN EA) as MA.
+          pose proof (try_roots_ok p (rt :: rev (eo_envs o)) (act_add (path_str p sep) a) RNone
+                        (fun x Hx => in_all_rev x rt Hrt Hx) I ltac:(lia) ltac:(lia)) as T.
+          destruct (try_roots dv fuel0 p (rt :: rev (eo_envs o)) (act_add (path_str p sep) a) RNone) as [r a1].
+          destruct T as [L [NO [NC GL]]]. cbn [fst snd] in *.
+          destruct r as [v| | | |e pe|r0].
           * split; [exact (GL v eq_refl)|]. split; [exact (le_act_trans _ _ _ (le_act_add _ _) L)|].
             intros _. pose proof (m_le _ _ L). lia.
           * rewrite no_resolver. unfold mkerr. exact I.
-          * destruct e; try (unfold mkerr; exact I); rewrite no_resolver; unfold mkerr; exact I.
-          * exact I.
-          * contradiction.
-      - exfalso. exact (Hspl e G).
+          * rewrite no_resolver. unfold mkerr. exact I.
+          * exfalso. apply NC. reflexivity.
+          * unfold mkerr. exact I.
+          * rewrite (NO r0 eq_refl). exact I.
+      - exfalso. apply (Hspl e). exists rt. split; assumption.
     Qed.
 
     Lemma to_string_dyn_ok : forall n a v, lgood v -> m a < n -> m a < K -> to_string_dyn o dv n a v <> OutOfModel.
@@ -277,34 +329,36 @@ Section Term.
       destruct (l_val v) as [ | |z|z|f|s|p sep|e|d0 a0] eqn:Ev;
         try (unfold simple_string, with_mark, mkerr; cbn [bind]; discriminate).
       - destruct b; cbn [simple_string with_mark bind]; discriminate.
-      - cbn [simple_string]. pose proof (Hflt f Hg) as F. destruct (ftext_lookup (eo_ftext o) f); [|contradiction].
+      - cbn [simple_string].
+        assert (ftext_lookup (eo_ftext o) f <> None) as F by (apply Hflt; exists (l_root v); split; assumption).
+        destruct (ftext_lookup (eo_ftext o) f); [|contradiction].
         cbn [with_mark bind]. discriminate.
-      - pose proof (Hdv a (l_path v) (VRef p sep) Hg Hk) as D. rewrite Hr.
-        destruct (dv root a (l_path v) (VRef p sep)) as [[v1 a1]|e1 pe| |]; cbn [bind]; try discriminate; [|contradiction].
+      - pose proof (Hdv (l_root v) a (l_path v) (VRef p sep) Hr Hg Hk) as D.
+        destruct (dv (l_root v) a (l_path v) (VRef p sep)) as [[v1 a1]|e1 pe| |]; cbn [bind]; try discriminate; [|contradiction].
         destruct D as [G1 [L1 M1]]. specialize (M1 eq_refl). cbn [fst snd]. apply IH; [exact G1|lia|lia].
-      - exfalso. exact (Hspl e Hg).
+      - exfalso. apply (Hspl e). exists (l_root v). split; assumption.
     Qed.
   End Step.
 
   Lemma dyn_value_ok : forall f, dv_ok f (dyn_value o f).
   Proof.
     induction f as [|f IH].
-    - intros a dp d _ H. lia.
+    - intros rt a dp d _ _ H. lia.
     - change (dyn_value o (S f)) with (dyn_step o (dyn_value o f) (S f)).
       apply dyn_step_ok; [exact IH|lia].
   Qed.
 
-  (** Config.String on such a tree is decided once the fuel exceeds the number of references *)
+  (** Config.String on such trees is decided once the fuel exceeds the number of references *)
   Theorem read_string_decided fuel name idx : List.length S0 < fuel ->
-    read_string o fuel root name idx <> OutOfModel.
+    read_string o fuel own name idx <> OutOfModel.
   Proof.
     intro HF. unfold read_string, get_value_dyn.
-    assert (lgood {| l_root := root; l_path := ""; l_val := root |}) as GR by (split; [reflexivity|apply sub_refl]).
+    assert (lgood {| l_root := own; l_path := ""; l_val := own |}) as GR by (split; [left; reflexivity|apply sub_refl]).
     pose proof (m_bound fresh) as MB.
     pose proof (get_path_dyn_ok (dyn_value o fuel) fuel fuel (dyn_value_ok fuel) (Nat.le_refl _)
                   (opts_path_idx (eo_p o) name idx) fresh _ GR ltac:(lia) ltac:(lia)) as P.
     destruct (get_path_dyn (dyn_value o fuel) fuel (opts_path_idx (eo_p o) name idx) fresh
-                {| l_root := root; l_path := ""; l_val := root |}) as [[r a1]|e pe| |]; cbn [bind]; try discriminate; [|contradiction].
+                {| l_root := own; l_path := ""; l_val := own |}) as [[r a1]|e pe| |]; cbn [bind]; try discriminate; [|contradiction].
     cbn [read_post fst snd] in *. destruct P as [L [NO GL]]. pose proof (m_le _ _ L) as ML.
     destruct r as [[v|]|e pe| |]; cbn [bind]; try (unfold mkerr; discriminate); [|contradiction].
     pose proof (to_string_dyn_ok (dyn_value o fuel) fuel fuel (dyn_value_ok fuel) (Nat.le_refl _) fuel a1 v (GL v eq_refl) ltac:(lia) ltac:(lia)) as T.
@@ -346,41 +400,48 @@ Proof.
   apply (refs_only_child ft S0 x y C). exact (IH R).
 Qed.
 
-(* every read of a tree of plain references is decided, whatever the references point at *)
-Theorem plain_references_terminate o root S0 fuel name idx :
-  eo_envs o = [] -> eo_res o = [] -> refs_only (eo_ftext o) S0 root = true ->
-  List.length S0 < fuel -> read_string o fuel root name idx <> OutOfModel.
+(* every read of trees of plain references is decided, whatever the references point at *)
+Theorem plain_references_terminate o own S0 fuel name idx :
+  eo_res o = [] -> forallb (refs_only (eo_ftext o) S0) (own :: eo_envs o) = true ->
+  List.length S0 < fuel -> read_string o fuel own name idx <> OutOfModel.
 Proof.
-  intros He Hr Hk HF. apply (read_string_decided o He Hr root S0); [| | |exact HF].
-  - intros p sep G. pose proof (refs_only_sub _ _ _ _ G Hk) as X. cbn [refs_only] in X.
+  intros Hr Hk HF.
+  assert (forall v, good o own v -> refs_only (eo_ftext o) S0 v = true) as K.
+  { intros v [rt [I S]]. apply (refs_only_sub _ _ _ _ S). rewrite forallb_forall in Hk. apply Hk. exact I. }
+  apply (read_string_decided o Hr own S0); [| | |exact HF].
+  - intros p sep G. pose proof (K _ G) as X. cbn [refs_only] in X.
     apply existsb_exists in X. destruct X as [n [I E]]. apply String.eqb_eq in E. subst n. exact I.
-  - intros e G. pose proof (refs_only_sub _ _ _ _ G Hk) as X. discriminate X.
-  - intros f G. pose proof (refs_only_sub _ _ _ _ G Hk) as X. cbn [refs_only] in X.
+  - intros e G. pose proof (K _ G) as X. discriminate X.
+  - intros f G. pose proof (K _ G) as X. cbn [refs_only] in X.
     destruct (ftext_lookup (eo_ftext o) f); [discriminate|discriminate X].
 Qed.
 
-(* a tree with a cycle, a dangling reference, a reference into a list and a chain: all decided *)
+(* a tree with a cycle, a dangling reference, a reference into a list, a chain, and a reference that
+   leads through one Env config into another: all decided *)
 Example termination_example :
-  let o := {| eo_p := {| p_sep := "."; p_maxIdx := 1024; p_numKeys := false; p_escape := false |};
-              eo_envs := []; eo_res := []; eo_noparse := false; eo_nocomma := false;
-              eo_n := {| n_p := {| p_sep := "."; p_maxIdx := 1024; p_numKeys := false; p_escape := false |};
-                         n_varexp := true; n_m := {| m_h := 0%N; m_ft := None |} |};
+  let po := {| p_sep := "."; p_maxIdx := 1024; p_numKeys := false; p_escape := false |} in
+  let e1 := VSub [("s", ("s", VRef [FName "u"] ".")); ("v", ("v", VStr "env1"))] None in
+  let e2 := VSub [("u", ("u", VSub [("inner", ("inner", VRef [FName "v"] "."))] None)); ("v", ("v", VStr "env2"))] None in
+  let o := {| eo_p := po; eo_envs := [e1; e2]; eo_res := []; eo_noparse := false; eo_nocomma := false;
+              eo_n := {| n_p := po; n_varexp := true; n_m := {| m_h := 0%N; m_ft := None |} |};
               eo_ftext := [] |} in
   let root := VSub [("a", ("a", VRef [FName "b"] "."));
                     ("b", ("b", VRef [FName "a"] "."));
                     ("c", ("c", VRef [FName "nowhere"] "."));
                     ("d", ("d", VRef [FName "l"; FIdx 1] "."));
                     ("e", ("e", VRef [FName "d"] "."));
-                    ("l", ("l", VSub [] (Some [("0", VInt 1); ("1", VStr "one")])))] None in
-  let names := ["b"; "a"; "nowhere"; "l.1"; "d"] in
-  refs_only (eo_ftext o) names root = true /\
-  (forall fuel name idx, 5 < fuel -> read_string o fuel root name idx <> OutOfModel) /\
-  read_string o 6 root "a" (-1) = Err ECyclic "" /\
-  read_string o 6 root "c" (-1) = Err EMissing "!raw" /\
-  read_string o 6 root "e" (-1) = Ok "one"%string.
+                    ("l", ("l", VSub [] (Some [("0", VInt 1); ("1", VStr "one")])));
+                    ("x", ("x", VRef [FName "s"; FName "inner"] "."))] None in
+  let names := ["b"; "a"; "nowhere"; "l.1"; "d"; "s.inner"; "u"; "v"] in
+  forallb (refs_only (eo_ftext o) names) (root :: eo_envs o) = true /\
+  (forall fuel name idx, 8 < fuel -> read_string o fuel root name idx <> OutOfModel) /\
+  read_string o 9 root "a" (-1) = Err ECyclic "" /\
+  read_string o 9 root "c" (-1) = Err EMissing "!raw" /\
+  read_string o 9 root "e" (-1) = Ok "one"%string /\
+  read_string o 9 root "x" (-1) = Ok "env2"%string.
 Proof.
   split; [vm_compute; reflexivity|]. split.
-  - intros fuel name idx L. apply (plain_references_terminate _ _ ["b"; "a"; "nowhere"; "l.1"; "d"]%string);
-      [reflexivity|reflexivity|vm_compute; reflexivity|exact L].
+  - intros fuel name idx L. apply (plain_references_terminate _ _ ["b"; "a"; "nowhere"; "l.1"; "d"; "s.inner"; "u"; "v"]%string);
+      [reflexivity|vm_compute; reflexivity|exact L].
   - vm_compute. repeat split.
 Qed.
